@@ -62,6 +62,7 @@ ElemOf(kd, i) == CASE kd.te = T8 -> (IF kd.f = "poison" /\ i = 5 THEN U8(200) EL
 ListOfLen(kd, n) == VList([i \in 1..n |-> ElemOf(kd, i)])
 
 FoldFamilies == {[kind |-> "wit", kd |-> kd, b |-> b] : kd \in Kinds, b \in Bounds}
+                \cup {[kind |-> "pair", kd |-> kd, b |-> b] : kd \in {k2 \in Kinds : k2.f \in {"mix", "last2", "flagged"}}, b \in {4, 8, 16}}
                 \cup {[kind |-> "lit", kd |-> kd, b |-> b] : kd \in {k2 \in Kinds : k2.f \in {"mix", "last2"}}, b \in {2, 4, 8, 16}}
 
 \* reference value of the fold (book semantics) to place in EXP
@@ -85,6 +86,25 @@ WitProgram(kd, b) ==
   IN [items |-> items, wdecls |-> <<<<"L", tl>>, <<"EXP", kd.ta>>>>, args |-> EmptyFn,
       space |-> [i \in 1..(2 * Len(lens)) |-> pt(lens[(i + 1) \div 2], i % 2 = 1)]]
 
+\* the list arrives inside a tuple witness, behind the initial accumulator (and in front of an unrelated component):
+\* `let (init, xs, z): (A, List<E, N>, u8) = witness::IN; fold::<f, N>(xs, init)` with init = the family's initial value
+PairProgram(kd, b) ==
+  LET tl == TList(kd.te, b)
+      tin == TTup(<<kd.ta, tl, T8>>)
+      items == Defs \o <<Main(Blk(<<SLet(PTup(<<PId("i0"), PId("l"), PIgn>>), tin, EWit("IN")),
+                                    SLet(PId("r"), kd.ta, ECall(CFold(kd.f, b), <<V("l"), V("i0")>>)),
+                                    SLet(PId("x"), kd.ta, EWit("EXP"))>> \o Obs(kd.ta, "r", "x")))>>
+      m == MainCtx(Defs \o <<Main(Blk(<<>>))>>, G0)
+      C == [fns |-> m.G.fns, al |-> m.G.al, wit |-> EmptyFn, args |-> EmptyFn, env |-> DummyEnv]
+      init == Ev(kd.init, kd.ta, EmptyFn, C)
+      lens == SetToSeq({n \in Lens(b) : n <= 9})
+      pt(n, good) == LET lst == ListOfLen(kd, n)
+                         v == RefFold(kd, lst)
+                     IN ("IN" :> VTup(<<init, lst, U8(n)>>))
+                        @@ ("EXP" :> IF IsFail(v) THEN ZeroVal(kd.ta) ELSE IF good THEN v ELSE Bump(v, kd.ta))
+  IN [items |-> items, wdecls |-> <<<<"IN", tin>>, <<"EXP", kd.ta>>>>, args |-> EmptyFn,
+      space |-> [i \in 1..(2 * Len(lens)) |-> pt(lens[(i + 1) \div 2], i % 2 = 1)]]
+
 \* literal list (elements written in the program) and computed list (elements from a function call)
 LitProgram(kd, b, n, computed) ==
   LET tl == TList(kd.te, b)
@@ -97,5 +117,6 @@ LitProgram(kd, b, n, computed) ==
 
 FoldProgramsOf(f) ==
   IF f.kind = "wit" THEN {WitProgram(f.kd, f.b)}
+  ELSE IF f.kind = "pair" THEN {PairProgram(f.kd, f.b)}
   ELSE {LitProgram(f.kd, f.b, n, c) : n \in 0..(f.b - 1), c \in BOOLEAN}
 =============================================================================
